@@ -469,6 +469,7 @@ func main() {
 		var mu sync.Mutex
 		global := map[string]*found{}
 		var capped bool
+		samples := make([]interface{}, 6) // written by distinct tasks, emitted in index order
 		mc.Par(len(lists), func(li int) {
 			if c.Expired() {
 				mu.Lock()
@@ -518,8 +519,8 @@ func main() {
 			for k := range t.outcomes {
 				c.Outcome(k)
 			}
-			if li%997 == 0 && li/997 < 6 {
-				c.Sample(map[string]interface{}{"peers_per_class": counts, "configs": len(cfgs), "cases": t.evals})
+			if li%997 == 0 && li/997 < len(samples) {
+				samples[li/997] = map[string]interface{}{"peers_per_class": counts, "configs": len(cfgs), "cases": t.evals}
 			}
 			if len(t.viol) > 0 {
 				mu.Lock()
@@ -539,6 +540,11 @@ func main() {
 		})
 		if capped {
 			c.Cap("deadline before all peer lists were run")
+		}
+		for _, sm := range samples {
+			if sm != nil {
+				c.Sample(sm)
+			}
 		}
 		sigs := make([]string, 0, len(global))
 		for sig := range global {
